@@ -321,13 +321,15 @@ PROPS = {
     ),
     "C03": dict(
         level="other",
-        contracts=["contracts.sections"],
+        contracts=["contracts.sections", "contracts.render"],
         harness=True,
         explanation=(
             "PROVED (pyvc, relative to the docutils node model): update_section_level_state requires the new section to be "
             "parentless and not one of the open sections (single parent / occurs once at that call site) and attaches it to "
             "a value of the open-level map - by the map invariant a document or a section - so sections occur only directly "
-            "under the document or another section, for every heading sequence.  The other clauses of C03 (title first, "
+            "under the document or another section, for every heading sequence; the fifteen render methods under the generic "
+            "render contract (see C02) attach every node they create exactly once, with its parent set, below the current "
+            "node (single parent, no node shared).  The other clauses of C03 (title first, "
             "transitions, unique ids, refid existence, table shape, footnote labels) are not yet under contract and are "
             "BOUNDED: an independent well-formedness checker over the doctree after the standard transforms for a footnote/"
             "target/reference/table/transition vocabulary x configurations, a 101-column table and generated nested documents."
@@ -336,11 +338,19 @@ PROPS = {
         trusted_base=["docutils node model (contracts/assumed_docutils.py)", "docutils transforms (ids, footnote numbering)"],
     ),
     "C02": dict(
-        level="exploration",
-        contracts=[],
+        level="other",
+        contracts=["contracts.render"],
         harness=True,
         explanation=(
-            "BOUNDED ONLY so far (the generic render contract G on every render_* method is not yet built): the doctree of "
+            "PROVED (pyvc, relative to the docutils node model and to the assumed induction hypothesis G' for the dynamic "
+            "dispatch in render_children): the generic render contract G for render_paragraph, render_bullet_list, "
+            "render_list_item, render_em, render_strong, render_span (containers) and render_inline, render_text, render_softbreak, "
+            "render_hardbreak, render_hr, render_math_inline / _single / _inline_double / _block (leaves): the current node is the same node afterwards; what it already had is kept "
+            "in order; a container attaches exactly ONE new node of its kind there (parent set, line = the token's line) "
+            "and renders the token's children while THAT node is the current node; a leaf attaches exactly its leaf nodes, "
+            "text and math tokens with their content verbatim.  Not under G (assumed through G'): headings, code blocks, links, "
+            "images, tables, directives, roles, targets, footnotes, the ordered-list style table, the Sphinx overrides.  "
+            "BOUNDED: the doctree of "
             "generated documents against the markdown-it token tree of the same text and mode - leaf sequence (text, inline "
             "code, code blocks, raw HTML, images, thematic breaks, hard breaks) identical in order and content, every leaf "
             "under the same container path (paragraph, lists and items, block quote, emphasis/strong, link, table/row/cell, "
@@ -348,9 +358,13 @@ PROPS = {
             "code language carried over - in MyST and strict CommonMark mode; and the same view of the Sphinx back end's "
             "doctree for a project of those documents (GFM mode needs linkify-it-py, which is not installed)."
         ),
-        assumptions=["markdown-it-py's token tree is the parse of the Markdown (oracle)"],
-        trusted_base=[],
-        technique="bounded run-time stand-in (token-tree vs doctree comparison on generated documents) - no contract discharged yet",
+        assumptions=["markdown-it-py's token tree is the parse of the Markdown (oracle)",
+                     "G' (render_children appends below the current node only and restores it) is the induction hypothesis of G: "
+                     "proved for the fifteen methods above given G' for their sub-trees, assumed for every other render method"],
+        trusted_base=["docutils node model and constructors (contracts/assumed_docutils.py, contracts/render.py)",
+                      "DocutilsRenderer.copy_attributes (assumed: touches attributes and may append warning nodes to the new node)"],
+        technique="contract-based deductive verification of the generic render contract on fifteen render_* methods; "
+                  "bounded run-time stand-in (token-tree vs doctree comparison on generated documents) for the whole pipeline",
     ),
     "C06": dict(
         level="exploration",
